@@ -28,6 +28,7 @@ type Env struct {
 	qvars    []string // enclosing bound variables "(name Sort)"
 	noUnfold int
 	where    string
+	addrs    map[string]Val // escaped locals: name -> pointer
 }
 
 type evalError struct{ msg string }
@@ -107,6 +108,17 @@ func (e *Env) eval(ex Expr) Val {
 		}
 		return c.eval(n.X)
 	case *EUn:
+		if n.Op == "&" {
+			// address of an escaped local variable
+			id, ok := n.X.(*EIdent)
+			if !ok || e.addrs == nil {
+				e.fail("& is only available on local variables in invariants")
+			}
+			if pv, ok := e.addrs[id.Name]; ok {
+				return pv
+			}
+			e.fail("&%s: not an escaped local variable", id.Name)
+		}
 		v := e.eval(n.X)
 		switch n.Op {
 		case "!":
@@ -573,6 +585,31 @@ func (e *Env) evalCall(n *ECall) Val {
 	case "zoneOffset":
 		e.x.declTime()
 		return iv(fmt.Sprintf("(zoneOffset (t_loc %s) (t_ns %s))", arg(0).Term, arg(0).Term))
+	case "dynPtr":
+		// dynPtr(x, "*T"): the pointer boxed in interface value x when its dynamic type is *T, else nil
+		v := arg(0)
+		ts, ok := n.Args[1].(*EStr)
+		if !ok {
+			e.fail("dynPtr(x, \"*Type\")")
+		}
+		t, _ := e.x.resolveType(e.pkg, ts.V)
+		if _, isPtr := t.Underlying().(*types.Pointer); !isPtr {
+			e.fail("dynPtr needs a pointer type")
+		}
+		return Val{T: t, Term: fmt.Sprintf("(ite (= (i_tag %s) %d) (i_val %s) 0)", v.Term, e.x.C.typeID(t), v.Term)}
+	case "decoded", "decodedOk":
+		// decoded(src, "T"): what a decoder with source src yields for target type T (see decodes)
+		v := arg(0)
+		ts, ok := n.Args[1].(*EStr)
+		if !ok {
+			e.fail("%s(src, \"Type\")", n.Fun)
+		}
+		t, _ := e.x.resolveType(e.pkg, ts.V)
+		okF, valF := e.x.decodedFuncs(t, e.sortOfVal(v))
+		if n.Fun == "decodedOk" {
+			return b(fmt.Sprintf("(%s %s)", okF, v.Term))
+		}
+		return Val{T: t, Term: fmt.Sprintf("(%s %s)", valF, v.Term)}
 	case "implies":
 		return b(implies(arg(0).Term, arg(1).Term))
 	case "smt":
@@ -698,7 +735,7 @@ func (e *Env) applySpec(sf *SpecFunc, args []Val) Val {
 	name := "spec_" + sf.Name
 	e.x.C.decl(fmt.Sprintf("(declare-fun %s (%s) %s)", name, strings.Join(ps, " "), rs))
 	app := "(" + name + " " + strings.Join(ts, " ") + ")"
-	if e.noUnfold == 0 && e.unfold != nil && (!sf.Opaque || e.x.reveal[sf.Name]) {
+	if e.noUnfold == 0 && e.unfold != nil && (!sf.Opaque || e.x.reveal[sf.Name] || e.x.revealAll) {
 		c := e.child()
 		c.pkg = sf.Pkg
 		c.bound = map[string]Val{}
